@@ -1,5 +1,6 @@
 import SimplicityModel.IterProps
 import SimplicityModel.IterTie
+import SimplicityModel.IterCert
 set_option linter.unusedSectionVars false
 set_option linter.unusedVariables false
 /-!
@@ -283,7 +284,21 @@ theorem indexDag_mirror (ns : List Sh) (hw : wellIdxB ns = true) (i : Nat) :
     U (ns.map mirrorSh) i = (U ns i).mirror :=
   U_mirror ns (wellIdx_of_B ns hw) i
 
---CLASSIFY--
+/-- the driver's identity-hash policy: the class table it computes (`classify`) is used only if it
+passes the check `certB` (a class iff a signature; same class iff same tag and same classes of the
+children), and *every* table that passes gives the iteration under the structural key `shape` -/
+theorem identityHash_table_checked (nodes : List (Option Nat × Sh)) (tbl : Array (Option Nat))
+    (hw : wellIdxB (nodes.map (·.2)) = true) (hc : certB nodes tbl = true) (r : Nat) (hr : r < nodes.length) :
+    run (keyOf tbl) (init (U (nodes.map (·.2)) r)) =
+      run (shape (tagOf nodes)) (init (U (nodes.map (·.2)) r)) := by
+  rw [run_eq_visit, run_eq_visit]
+  exact cert_visit nodes tbl hw hc r hr
+
+example : certB [(some 0, .leaf), (some 0, .leaf), (none, .leaf), (some 1, .bin 0 1), (some 1, .bin 1 0), (some 0, .un 2)]
+    (classify [(some 0, .leaf), (some 0, .leaf), (none, .leaf), (some 1, .bin 0 1), (some 1, .bin 1 0), (some 0, .un 2)]) = true ∧
+    classify [(some 0, .leaf), (some 0, .leaf), (none, .leaf), (some 1, .bin 0 1), (some 1, .bin 1 0), (some 0, .un 2)] =
+      #[some 0, some 0, none, some 1, some 1, none] := by decide
+
 /-- two keys with the same classes on the DAG give the same iteration -/
 theorem post_depends_on_classes_only {K' : Type} [DecidableEq K'] (key' : T → Option K') (root : T)
     (h : ∀ a c, Desc root a → Desc root c →
